@@ -709,6 +709,12 @@ class GenericPlainRegistry(Generic[QuantityT, UnitT], metaclass=RegistryMeta):
 
     def get_symbol(self, name_or_alias: str, case_sensitive: bool | None = None) -> str:
         """Return the preferred alias for a unit."""
+        try:
+            # a defined name, symbol or alias denotes that unit (as in get_name)
+            return self._units[name_or_alias].symbol
+        except KeyError:
+            pass
+
         candidates = self.parse_unit_name(name_or_alias, case_sensitive)
         if not candidates:
             raise UndefinedUnitError(name_or_alias)
